@@ -1,12 +1,12 @@
 SPECIFICATION GSpec
 CONSTANTS
   HasMax = TRUE
-  KMax = 3
-  KMin = 4
-  MinZero = TRUE
-  KEdge = 0
-  KOut = 9
-  HasRit = FALSE
-  KRit = 0
+  KMax = 4
+  KMin = 3
+  MinZero = FALSE
+  KEdge = 1
+  KOut = 3
+  HasRit = TRUE
+  KRit = 2
   Variant = "repaired"
 CHECK_DEADLOCK FALSE
